@@ -76,6 +76,27 @@ CHECKS = {
         note="Known findings: interpreter limits (RecursionError / 4300-digit ValueError) and non-finite float literal round trip, classified by mechanism with size thresholds.",
         design="3/C12",
     ),
+    "C08": dict(
+        level="exploration",
+        technique="runtime monitoring of the generator entry points (library, tensor_method, CLI via CliRunner and real subprocess): exception-type oracle, sys.monitoring call budget, gcc -pedantic-errors syntax check of every emitted C module, llvmlite parse+verify of every LLVM module",
+        text="~4.3k requests per quick run (curated shapes x exhaustive/sampled formats x kind subsets x languages, random grammar, diagonal accesses, identifier spellings, literal classes, 200 CLI invocations): code or a documented refusal, never another exception; all ~1.7k C modules compile, all ~950 LLVM modules verify.",
+        note="Hang = 1e9 Python calls (200x the largest legitimate request seen). Known findings K7 (identifier collides with C/libc) and K8 (non-finite/huge literal) classified by predicate + counterfactual replay.",
+        design="3/C08",
+    ),
+    "C10": dict(
+        level="fault_enumeration",
+        technique="runtime fault injection at the call boundary with a counting wrapper on the compiled function pointer (kernel-entry event) and an exception-type oracle; shards in subprocesses so a crash is observed",
+        text="~7k single-fault calls per quick run: every way of making exactly one argument inconsistent (missing/extra/positional/non-Tensor/duck-typed/order/mode/ordering/each participant's dimension +-1) through tensor_method and evaluate; each must raise a documented error with the kernel-entry counter unchanged.",
+        note="Kernel entry observed at TensorMethod._evaluate (positive control per case: the consistent call advances it exactly once).",
+        design="3/C10",
+    ),
+    "C15": dict(
+        level="exploration",
+        technique="runtime differential monitoring across processes: SHA-256 of generated text under different PYTHONHASHSEED and request orders, CLI vs library, warm vs cleared vs fresh-process evaluate results, kernel-sharing identity/behaviour probes",
+        text="400 requests x 2 generations x 9 processes (5 hash seeds x 3 request orders) per quick run compared run to run; 100 CLI stdout/-o comparisons; 150 warm/cleared/fresh-process evaluate comparisons; 8 near-identical request pairs.",
+        note="No golden text is stored; only disagreement between runs is a violation.",
+        design="3/C15",
+    ),
 }
 
 PENDING = {
